@@ -264,5 +264,6 @@ var scenarioTable = map[string]func() Scenario{
 	"S-leased": scLeased,
 	"S-life":   scLife,
 	"S-meter":  scMeter,
+	"S-collide": scCollide,
 	"S-grid":   scGrid,
 }
